@@ -39,6 +39,28 @@ func runC14(c *Ctx) bool {
 				f = append(f, gen.RandForest(r, 60, 4, []int{gen.ClassPlain}, 0)...)
 			}
 		}
+		if j%16 == 9 {
+			// ONE root whose rendering exceeds one / two 4096-byte buffers
+			n := []int{180, 400}[(j/16)%2]
+			depths := make([]int, n)
+			names := make([]string, n)
+			for i := range depths {
+				switch {
+				case i == 0:
+					depths[i] = 1
+				case i == 1:
+					depths[i] = 2
+				default:
+					depths[i] = 2 + i%3
+					if depths[i] > depths[i-1]+1 {
+						depths[i] = depths[i-1] + 1
+					}
+				}
+				names[i] = "node-with-a-long-name-" + strconv.Itoa(i)
+			}
+			names[0] = "bigroot"
+			f = gen.FromDepths(depths, names)
+		}
 		c08Safe(f)
 		sp := gen.RandSpelling(r)
 		if !gen.CanHeading(f) || j%4 != 0 {
